@@ -442,6 +442,7 @@ def verdict(pid, results, hist_of, known, also=None, all_kinds=()):
 def run_main(pid, tier, seed, replay=None):
     P = MAIN[pid]
     t0 = time.time()
+    vk.TRACE_TIMEOUT = 3600 if tier == "thorough" else 1200
     vk.build_harness()
     known = vk.load_known()
     module = P.get("module", "TraceMain.tla")
@@ -818,7 +819,7 @@ MAIN = {
         mc=dict(quick=SEARCH_Q, thorough=SEARCH_T),
         traces=dict(quick=[dict(profile="search", jobs=8, count=30), dict(family="skewed", jobs=4, count=5, seed_off=60)],
                     thorough=[dict(profile="search", jobs=16, count=400), dict(profile="forest", jobs=8, count=400, seed_off=100),
-                              dict(family="skewed", jobs=8, count=40, seed_off=60)]),
+                              dict(family="skewed", jobs=8, count=15, seed_off=60)]),
         distinct=distinct_forests, sample_event="Build",
     ),
     "C05": dict(
